@@ -344,6 +344,10 @@ func runC16(tier string, r *rng) {
 		c16FailFirst, c16Pend = true, true
 		c16Move(mk(80, sec), 20, hour, sec, 3, sfh, "syncFromHeight-fault-pending")
 	}
+	// the very first tail selection, over an EMPTY store, with the request for the chosen tail header failing once
+	for _, sfh := range []uint64{0, 7} {
+		c16EmptyInit(mk(60, sec), 30*sec, sec, sfh)
+	}
 	k := 40
 	if tier == "thorough" {
 		k = 800
@@ -366,4 +370,51 @@ func runC16(tier string, r *rng) {
 		c16Find(ts, lo, window, bt, nil)
 		c16Move(ts, lo, window, bt, 0, 0, fmt.Sprintf("rand%d", i))
 	}
+}
+
+// c16EmptyInit: empty store; the getter serves the head but fails every GetByHeight during the first attempt.
+// The first attempt returns an error (it does not panic), stores nothing, and the second one goes through.
+func c16EmptyInit(ts []int64, window, bt time.Duration, syncFromHeight uint64) {
+	ctx := context.Background()
+	chain := chainWithTimes(ts)
+	st := newStoreWith(chain, 1, 0)
+	defer st.Stop(ctx) //nolint:errcheck
+	g := &scriptGetter{chain: chain, failH: map[uint64]bool{}}
+	for h := 1; h <= len(chain); h++ {
+		g.failH[uint64(h)] = true
+	}
+	opts := []hsync.Option{hsync.WithPruningWindow(window)}
+	if syncFromHeight > 0 {
+		opts = append(opts, hsync.WithSyncFromHeight(syncFromHeight))
+	}
+	s, _ := newSyncer(g, st, opts...)
+	s.VerifSetPolicy(1000*time.Hour, bt, 0)
+	head := chain[len(chain)-1]
+	run := func() string {
+		return guard(func() string {
+			cctx, cancel := context.WithTimeout(ctx, 1500*time.Millisecond)
+			defer cancel()
+			_, err := s.VerifSubjectiveTail(cctx, head)
+			if errors.Is(err, context.DeadlineExceeded) {
+				return "hang"
+			}
+			if err != nil {
+				return "err"
+			}
+			return "ok"
+		})
+	}
+	r1 := run()
+	_ = st.Sync(ctx)
+	stored1 := st.Height()
+	g.mu.Lock()
+	g.failH = nil
+	g.mu.Unlock()
+	r2 := run()
+	_ = st.Sync(ctx)
+	tl := uint64(0)
+	if t, err := st.Tail(ctx); err == nil {
+		tl = t.H
+	}
+	emit("C16 kind=emptyinit sfh=%d n=%d => r1=%s stored1=%d r2=%s tail=%d", syncFromHeight, len(chain), r1, stored1, r2, tl)
 }
